@@ -67,7 +67,9 @@ class P:
         # extended operator sets: fresh process per history
         nh = 60 if tier == "quick" else 3000
         hist = []
-        pool_sym = ["<->", "+++", "=>", "**", "!!", "<>", "%%", "->", "|>", "::", "+-+", "&&&"]
+        pool_sym = ["<->", "+++", "=>", "**", "!!", "<>", "%%", "->", "|>", "::", "+-+", "&&&",
+                    # symbolic operators that continue with characters outside the fixed operator set
+                    "=~", "!~", "-~", "<$>", "+x", "*.", "=a="]
         pool_word = ["hi", "xor", "nand", "is", "like", "IN", "notin", "be"]
         for _ in range(nh):
             regs = []
@@ -158,7 +160,7 @@ class P:
                     if (kind == "func") != (rest.lstrip(" \t\r\n").startswith("(")):
                         return "violates", "function/reference classification of %r before %r" % (body, rest[:5])
                     # a word operator must be recognised when it is a whole word
-                    word = re.match(r"[^ \t\r\n()\[\]{}]*", b[a:].decode("utf-8", errors="replace")).group(0)
+                    word = re.match(r"[^ \t\r\n()\[\]{},;:]*", b[a:].decode("utf-8", errors="replace")).group(0)
                     if word in ops and body[0] not in SPECIAL:
                         return "violates", "whole-word operator %r lexed as a name" % word
                 if kind == "op":
@@ -174,7 +176,7 @@ class P:
                             return "violates", "longest-match: %r lexed, %r registered (%s)" % (
                                 body, longest, "prefix-closed" if closed else "not-prefix-closed")
                     else:
-                        word = re.match(r"[^ \t\r\n()\[\]{}]*", b[a:].decode("utf-8", errors="replace")).group(0)
+                        word = re.match(r"[^ \t\r\n()\[\]{},;:]*", b[a:].decode("utf-8", errors="replace")).group(0)
                         if body != word or body not in ops:
                             return "violates", "word operator %r is not the whole word %r / not registered" % (body, word)
                 pos = e
